@@ -23,3 +23,15 @@ def gen_directives():
         return False, out
     _install(tmp, os.path.join(vcheck.COQ, "gen", "Directives.v"))
     return True, out
+
+
+def gen_inventory():
+    os.makedirs(os.path.join(vcheck.COQ, "gen"), exist_ok=True)
+    tmp = os.path.join(vcheck.WORK, "Inventory.v.tmp")
+    if os.path.exists(tmp):
+        os.remove(tmp)
+    rc, out = vcheck.go_test("./internal/mode/static/", "TestVerifGenInventory", {"VERIF_GEN_OUT": tmp}, 600)
+    if rc != 0 or not os.path.exists(tmp):
+        return False, out
+    _install(tmp, os.path.join(vcheck.COQ, "gen", "Inventory.v"))
+    return True, out
